@@ -82,7 +82,7 @@ CLAIMS.update({
     "C18": dict(
         text="PARTIAL (proof for sfs's own readers/writers + exploration of the noodles path). Unbounded Lean theorems over a model of BufRead/Read/Write with an arbitrary chunk schedule and failure offset: read_exact / read_line / read_to_end are schedule-free, "
              "readNpyRd = readNpy and readTextRd = readText for every schedule (one byte at a time, any first chunk), the detection prefix is schedule-free (fix 1c0411c), a reader failing at any offset up to EOF never yields a spectrum (and yields the I/O error itself on valid data), "
-             "write_all through any short-writing writer delivers exactly the bytes, a writer failing before the last byte makes the operation fail. Explored: the genotype reader (noodles VCF/BCF/BGZF) over enumerated first-chunk lengths, 1-byte schedules and injected failures, compared with the create model.",
+             "write_all through any short-writing writer delivers exactly the bytes, a writer failing before the last byte makes the operation fail; for call sets: the model of `sfs create` over a stream (read-ahead prefix, detection, decode with the concrete container codecs, run) is schedule-free (C12.create_schedule_free_bytes) and a reader failing at any offset up to EOF never yields a spectrum (create_read_failure_surfaces). Explored: the genotype reader (noodles VCF/BCF/BGZF) over enumerated first-chunk lengths, 1-byte schedules and injected failures, compared with the create model.",
         note=NOTE_COMMON + " std::io's default read_exact / read_line / read_to_string / write_all are re-stated in Lean (IoModel) and validated by running the real code over scheduled readers/writers; noodles' readers are not modelled."),
 })
 
